@@ -101,6 +101,31 @@ def wildcard_edge_unions() -> list[str]:
     return out
 
 
+def gen_many_ranges(rnd: random.Random) -> str:
+    """the largest shape of the domain: three `||` groups of three clauses (`lo, hi, !=hole` or `end, !=hole, !=hole`), i.e. a
+    union of up to nine ranges — count thresholds (a bisect or a fast path above N members) only show here"""
+    pts = sorted(rnd.sample(range(0, 60), 12))
+    groups = []
+    g0 = f"<{pts[2]},!={pts[0]},!={pts[1]}"
+    g1 = f">={pts[3]},<{pts[6]},!={pts[rnd.choice([4, 5])]}" if rnd.random() < 0.5 else f">{pts[3]},<={pts[6]},!={pts[4]}"
+    g2 = f">{pts[7]},!={pts[9]},!={pts[10]}"
+    groups = [g0, g1, g2]
+    rnd.shuffle(groups)
+    return " || ".join(groups)
+
+
+def gen_many_range_pairs(rnd: random.Random, n: int) -> list[tuple[str, str]]:
+    out = []
+    for _ in range(n):
+        a = gen_many_ranges(rnd)
+        k = rnd.random()
+        x, y = sorted(rnd.sample(range(0, 60), 2))
+        b = (f">={x}" if k < 0.2 else f"<{y}" if k < 0.35 else f">={x},<{y}" if k < 0.6 else f">{x}.5,<={y}" if k < 0.7
+             else gen_many_ranges(rnd) if k < 0.9 else f"!={x},!={y}")
+        out.append((a, b) if rnd.random() < 0.5 else (b, a))
+    return out
+
+
 PROBE_BASES = ["0.0.1", "0.5", "1.1", "1.5", "1.2.5", "2.5", "3.5", "4", "0.0.0.1", "1.0.1", "1.2.3.1", "1.3", "2.1", "0", "1", "1.0", "1.2", "1.2.3", "2", "3"]
 PROBE_SUF = ["", ".dev1", "a2", ".post3", "+loc", ".post2+x.1", "rc1.dev1", ".dev0", "a0", ".post0"]
 
